@@ -233,13 +233,19 @@ def check_binary(job, work, d, jr, cur, tier):
     if job.get("unwind"):
         cmd += ["--unwind", str(job["unwind_thorough"] if tier == "thorough" and job.get("unwind_thorough") else job["unwind"]),
                 "--unwinding-assertions"]
+    if job.get("unwind_paths"):
+        # explore every path with at most N traversals of each back-edge (no unwinding assertions: longer paths are cut off);
+        # only used for jobs labelled bounded
+        cmd += ["--unwind", str(job["unwind_paths"]), "--no-unwinding-assertions"]
     if job.get("cbmc_unwindset"):
-        cmd += ["--unwindset", job["cbmc_unwindset"]] + ([] if job.get("unwind") else ["--unwinding-assertions"])
+        cmd += ["--unwindset", job["cbmc_unwindset"]] + ([] if job.get("unwind") or job.get("unwind_paths") else ["--unwinding-assertions"])
     if job.get("object_bits"):
         cmd += ["--object-bits", str(job["object_bits"])]
     cmd += job.get("flags", [])
     if job.get("solver"):
         cmd += ["--sat-solver", job["solver"]]
+    if job.get("smt"):
+        cmd += ["--" + job["smt"]]
     jr.cmds.append(" ".join(cmd))
     with open(os.path.join(d, "cmds.sh"), "w") as fh:
         fh.write("\n".join(jr.cmds) + "\n")
@@ -320,6 +326,8 @@ def check_binary(job, work, d, jr, cur, tier):
         jr.msg = "unwinding assertion failed (bound too small; tool-side): " + unwind_fail[0]["description"]
         return jr
     if failed:
+        # named property obligations (postconditions, labelled assertions) first: they carry the clearest counterexample
+        failed.sort(key=lambda r: 0 if re.match(r"C\d\d\.", r["description"] or "") else 1 if "ensures" in (r["description"] or "") else 2)
         jr.status = "violation"
         jr.failed = failed
         # fetch a trace for the first failing obligation
@@ -485,7 +493,7 @@ def write_evidence(prop, spec, tier, seed, results, native_reports, manifest, wa
                       "route": route, "bound": j.get("bound"), "arch": j.get("arch"),
                       "status": jr.status, "obligations": n, "discharged": dis,
                       "loop_invariant_obligations": jr.loop_obl,
-                      "backend": "cbmc 6.11 SAT (%s)" % (j.get("solver") or "minisat2"),
+                      "backend": ("cbmc 6.11 SMT2 (%s)" % j["smt"]) if j.get("smt") else "cbmc 6.11 SAT (%s)" % (j.get("solver") or "minisat2"),
                       "seconds": jr.secs, "claims": j.get("claims", "")})
         for r in others:
             d = r["description"] or ""
